@@ -3,6 +3,7 @@ import TTV.Model.Describe
 import TTV.Model.TextRepr
 import TTV.Spec.C07
 import TTV.Props.C06
+import Mathlib.Data.List.Nodup
 /-! # C07 — mismatches are describable; text_repr round trip; assertThat / expectThat -/
 namespace TTV.Props.C07
 open TTV.TextRepr
@@ -554,5 +555,503 @@ theorem C07_text_repr_roundtrip (b : Bool) (p : Nat → Bool) (ml : Option Bool)
     unfold pyEval
     rw [List.append_assoc, List.append_assoc, stripPre_pre]
     simpa [Q, BS, NL] using key
+
+end TTV.Props.C07
+
+/-! # describe-ability of the stock matchers -/
+namespace TTV.Props.C07
+open TTV.Matchers hiding Input Trace model
+open TTV.Describe TTV.Generated.C07 TTV.Spec.C07
+
+/-- the table extracted from the tree: no class of the model resolves `str()` to `Matcher.__str__`
+(re-checked against the tree on every run; fails to compile when a stock class loses its `__str__`) -/
+theorem table_ok : (strKinds.all fun p => p.2 != StrKind.inherited) = true
+    ∧ (opaqueStr.all fun p => p.2) = true
+    ∧ (["Equals", "NotEquals", "Is", "LessThan", "GreaterThan", "SameMembers", "StartsWith", "EndsWith", "Contains",
+        "IsInstance", "_MatchesPredicateWithParams", "_Always", "_Never", "KeysEqual", "MatchesException", "Raises",
+        "MatchesPredicate", "Not", "MatchesAll", "MatchesAny", "AllMatch", "AnyMatch", "MatchesListwise",
+        "MatchesSetwise", "MatchesStructure", "MatchesDict", "ContainsDict", "ContainedByDict", "Annotate",
+        "AfterPreprocessing"].all fun n => kindOf n != StrKind.inherited) = true := by
+  decide
+
+theorem strOf_ok {name : String} {kids : R} (h : kindOf name ≠ .inherited) (hk : kids = none) :
+    strOf name kids = none := by
+  unfold strOf
+  cases hkind : kindOf name <;> simp_all
+
+theorem leafStr_ok (l : Leaf) : leafStr l = none := by
+  have hop := table_ok.2.1
+  cases l with
+  | «opaque» id dom res =>
+    simp only [leafStr]
+    split
+    · rfl
+    · rename_i x heq
+      have := List.mem_of_find?_eq_some heq
+      rw [List.all_eq_true] at hop
+      have := hop _ this
+      simp at this
+    · rfl
+  | _ => simp only [leafStr, leafClass]; exact strOf_ok (by decide) rfl
+
+mutual
+/-- **C07 (`str()` is total).**  `str(matcher)` succeeds for every stock matcher expression of any depth
+(given the `__str__` table read from the tree). -/
+theorem C07_str_total : ∀ m : M, strM m = none
+  | .leaf l => by simp only [strM]; exact leafStr_ok l
+  | .excTypeV _ _ => strOf_ok (by decide) rfl
+  | .raises _ => strOf_ok (by decide) rfl
+  | .not m => strOf_ok (by decide) (C07_str_total m)
+  | .all _ ms => strOf_ok (by decide) (strML_total ms)
+  | .any ms => strOf_ok (by decide) (strML_total ms)
+  | .allMatch m => strOf_ok (by decide) (C07_str_total m)
+  | .anyMatch m => strOf_ok (by decide) (C07_str_total m)
+  | .listwise _ _ => strOf_ok (by decide) rfl
+  | .setwise _ _ _ => strOf_ok (by decide) rfl
+  | .structure _ ms => strOf_ok (by decide) (strML_total ms)
+  | .dict k _ ms => by
+    simp only [strM]
+    cases k <;> exact strOf_ok (by decide) (strML_total ms)
+  | .annotate m => strOf_ok (by decide) (C07_str_total m)
+  | .after _ _ m => strOf_ok (by decide) (C07_str_total m)
+theorem strML_total : ∀ ms : List M, strML ms = none
+  | [] => rfl
+  | m :: ms => by simp [strML, seqR, C07_str_total m, strML_total ms]
+end
+
+theorem descrParts_none (fo : Bool) : ∀ (vs : List Verdict) (ds : List R), (∀ d ∈ ds, d = none) →
+    descrParts fo vs ds = none
+  | [], _, _ => by simp [descrParts]
+  | _ :: _, [], _ => by simp [descrParts]
+  | v :: vs, d :: ds, h => by
+    have hd := h d List.mem_cons_self
+    have ih := descrParts_none fo vs ds (fun x hx => h x (List.mem_cons_of_mem _ hx))
+    subst hd
+    cases v <;> cases fo <;> simp [descrParts, seqR, ih]
+
+mutual
+/-- **C07 (`describe()` is total).**  For every well-formed stock matcher expression (any depth; the
+messages of `MatchesPredicate` leaves have one conversion, as documented), every value and both set
+orders: describing the mismatch that `match()` returned succeeds. -/
+theorem C07_describe_total (sel : Bool) : ∀ (m : M) (v : V), wf m = true → descr sel m v = none
+  | .leaf l, v, h => by
+    cases l with
+    | predicate id msg dom res =>
+      simp only [wf, beq_iff_eq] at h
+      subst h
+      simp [descr, leafDescr]
+    | _ => simp [descr, leafDescr]
+  | .excTypeV cs vm, v, h => by
+    simp only [wf] at h
+    simp only [descr]
+    split
+    · split
+      · exact C07_describe_total sel vm _ h
+      · rfl
+    · rfl
+  | .raises em, v, h => by
+    simp only [wf] at h
+    simp only [descr]
+    split
+    · rfl
+    · exact C07_describe_total sel em _ h
+  | .not m, _, _ => by simp only [descr]; exact C07_str_total m
+  | .all fo ms, v, h => by
+    simp only [wf] at h
+    simp only [descr]
+    exact descrParts_none _ _ _ (descrRow_none sel ms v h)
+  | .any ms, v, h => by
+    simp only [wf] at h
+    simp only [descr]
+    exact descrParts_none _ _ _ (descrRow_none sel ms v h)
+  | .allMatch m, v, h => by
+    simp only [wf] at h
+    simp only [descr]
+    split
+    · rfl
+    · apply descrParts_none
+      intro d hd
+      obtain ⟨x, _, rfl⟩ := List.mem_map.mp hd
+      exact C07_describe_total sel m x h
+  | .anyMatch m, v, h => by
+    simp only [wf] at h
+    simp only [descr]
+    split
+    · rfl
+    · apply descrParts_none
+      intro d hd
+      obtain ⟨x, _, rfl⟩ := List.mem_map.mp hd
+      exact C07_describe_total sel m x h
+  | .listwise fo ms, v, h => by
+    simp only [wf] at h
+    simp only [descr]
+    split
+    · rfl
+    · exact descrParts_none _ _ _ (descrZip_none sel ms _ h)
+  | .setwise _ _ ms, v, h => by
+    simp only [wf] at h
+    simp only [descr]
+    split
+    · rfl
+    · rename_i xs _
+      have : ∀ ys : List V,
+          ys.foldr (fun x r => seqR (descrParts false (matchRow sel ms x) (descrRow sel ms x)) r) none = none := by
+        intro ys
+        induction ys with
+        | nil => rfl
+        | cons x ys ih =>
+          rw [List.foldr_cons, ih, descrParts_none _ _ _ (descrRow_none sel ms x h)]
+          rfl
+      exact this xs
+  | .structure attrs ms, v, h => by
+    simp only [wf] at h
+    simp only [descr]
+    exact descrParts_none _ _ _ (descrZip_none sel ms _ h)
+  | .dict _ ks ms, v, h => by
+    simp only [wf] at h
+    simp only [descr]
+    split
+    · exact descrParts_none _ _ _ (descrZip_none sel ms _ h)
+    · rfl
+  | .annotate m, v, h => by
+    simp only [wf] at h
+    simp only [descr]
+    exact C07_describe_total sel m v h
+  | .after f _ m, v, h => by
+    simp only [wf] at h
+    simp only [descr]
+    split
+    · exact C07_describe_total sel m _ h
+    · rfl
+theorem descrRow_none (sel : Bool) : ∀ (ms : List M) (v : V), wfL ms = true → ∀ d ∈ descrRow sel ms v, d = none
+  | [], _, _, d, hd => by simp [descrRow] at hd
+  | m :: ms, v, h, d, hd => by
+    simp only [wfL, Bool.and_eq_true] at h
+    simp only [descrRow, List.mem_cons] at hd
+    rcases hd with rfl | hd
+    · exact C07_describe_total sel m v h.1
+    · exact descrRow_none sel ms v h.2 d hd
+theorem descrZip_none (sel : Bool) : ∀ (ms : List M) (vs : List (Option V)), wfL ms = true →
+    ∀ d ∈ descrZip sel ms vs, d = none
+  | [], vs, _, d, hd => by simp [descrZip] at hd
+  | _ :: _, [], _, d, hd => by simp [descrZip] at hd
+  | m :: ms, none :: vs, h, d, hd => by
+    simp only [wfL, Bool.and_eq_true] at h
+    simp only [descrZip] at hd
+    exact descrZip_none sel ms vs h.2 d hd
+  | m :: ms, some v :: vs, h, d, hd => by
+    simp only [wfL, Bool.and_eq_true] at h
+    simp only [descrZip, List.mem_cons] at hd
+    rcases hd with rfl | hd
+    · exact C07_describe_total sel m v h.1
+    · exact descrZip_none sel ms vs h.2 d hd
+end
+
+end TTV.Props.C07
+
+/-! # assertThat / assert_that / expectThat -/
+namespace TTV.Props.C07
+open TTV.Matchers hiding Input Trace model
+open TTV.Describe TTV.Spec.C07
+
+theorem uniqFrom_base (ex : List Name) (base : Nat) : ∀ fuel k, (uniqFrom ex base fuel k).base = base
+  | 0, _ => rfl
+  | fuel + 1, k => by
+    simp only [uniqFrom]
+    split
+    · exact uniqFrom_base ex base fuel (k + 1)
+    · rfl
+
+theorem uniqFrom_spec (ex : List Name) (base : Nat) : ∀ fuel k,
+    uniqFrom ex base fuel k ∉ ex ∨
+      (uniqFrom ex base fuel k = ⟨base, k + fuel⟩ ∧ ∀ j, k ≤ j → j < k + fuel → (⟨base, j⟩ : Name) ∈ ex)
+  | 0, k => Or.inr ⟨rfl, fun j h1 h2 => by omega⟩
+  | fuel + 1, k => by
+    simp only [uniqFrom]
+    split
+    · rename_i hk
+      have hk' : (⟨base, k⟩ : Name) ∈ ex := by simpa using hk
+      rcases uniqFrom_spec ex base fuel (k + 1) with h | ⟨h1, h2⟩
+      · exact Or.inl h
+      · right
+        refine ⟨by rw [h1]; congr 1; omega, ?_⟩
+        intro j hj1 hj2
+        by_cases hjk : j = k
+        · subst hjk; exact hk'
+        · exact h2 j (by omega) (by omega)
+    · rename_i hk
+      left
+      simpa using hk
+
+/-- `addDetailUniqueName` never picks a name that is already taken (pigeonhole: among `name`, `name-1`, …,
+`name-n` one is free when `n` details exist) -/
+theorem uniq_fresh (ex : List Name) (base : Nat) : uniq ex base ∉ ex := by
+  unfold uniq
+  rcases uniqFrom_spec ex base ex.length 0 with h | ⟨h1, h2⟩
+  · exact h
+  · rw [h1]
+    intro hmem
+    have hnd : ((List.range (ex.length + 1)).map fun j => (⟨base, j⟩ : Name)).Nodup := by
+      apply List.Nodup.map _ List.nodup_range
+      intro a c hac
+      simpa using hac
+    have hsub : ((List.range (ex.length + 1)).map fun j => (⟨base, j⟩ : Name)) ⊆ ex := by
+      intro n hn
+      obtain ⟨j, hj, rfl⟩ := List.mem_map.mp hn
+      have hj' : j < ex.length + 1 := List.mem_range.mp hj
+      by_cases hje : j = ex.length
+      · subst hje; simpa using hmem
+      · exact h2 j (Nat.zero_le _) (by omega)
+    have := List.Nodup.length_le_of_subset hnd hsub
+    simp only [List.length_map, List.length_range] at this
+    omega
+
+theorem freshAll_of_append (ex : List Name) (u : Name) (added : List Name) (hu : u ∉ ex)
+    (h : freshAll (ex ++ [u]) added = true) : freshAll ex (u :: added) = true := by
+  simp [freshAll, hu, h]
+
+theorem foldl_addUnique : ∀ (ds : List Nat) (ex : List Name),
+    ∃ added, ds.foldl addUnique ex = ex ++ added ∧ added.map (·.base) = ds ∧ freshAll ex added = true
+  | [], ex => ⟨[], by simp [freshAll]⟩
+  | d :: ds, ex => by
+    obtain ⟨added, h1, h2, h3⟩ := foldl_addUnique ds (addUnique ex d)
+    refine ⟨uniq ex d :: added, ?_, ?_, ?_⟩
+    · have e : addUnique ex d = ex ++ [uniq ex d] := rfl
+      rw [e] at h1
+      simp [h1, e]
+    · simp only [List.map_cons, h2, uniq, uniqFrom_base]
+    · exact freshAll_of_append ex _ added (uniq_fresh ex d) h3
+
+theorem freshAll_snoc : ∀ (added ex : List Name) (u : Name), freshAll ex added = true → u ∉ ex ++ added →
+    freshAll ex (added ++ [u]) = true
+  | [], ex, u, _, hu => by simpa [freshAll] using hu
+  | a :: added, ex, u, h, hu => by
+    simp only [freshAll, Bool.and_eq_true] at h
+    simp only [List.cons_append, freshAll, Bool.and_eq_true]
+    refine ⟨h.1, freshAll_snoc added (ex ++ [a]) u h.2 ?_⟩
+    simpa [List.append_assoc] using hu
+
+/-- **C07 (`assertThat` / `assert_that`)** raise `MismatchError` exactly when `match()` returned a mismatch
+(and then the statement after the call does not run). -/
+theorem C07_assertThat_iff (a : AssertIn) (h : a.api ≠ .expectThat) :
+    ((assertModel a).raised = true ↔ a.mismatch.isSome = true) ∧
+    ((assertModel a).continued = true ↔ a.mismatch.isSome = false) := by
+  unfold assertModel
+  cases hm : a.mismatch <;> cases ha : a.api <;> simp_all
+
+/-- **C07 (`expectThat`)** never raises and the test body continues; the test is marked to fail once it
+has finished exactly when `match()` returned a mismatch, and is then reported as a failure. -/
+theorem C07_expectThat (a : AssertIn) (h : a.api = .expectThat) :
+    (assertModel a).raised = false ∧ (assertModel a).continued = true ∧
+    ((assertModel a).forceFailure = true ↔ a.mismatch.isSome = true) ∧
+    ((assertModel a).outcome = .failure ↔ a.mismatch.isSome = true) := by
+  unfold assertModel
+  cases hm : a.mismatch <;> simp_all
+
+/-- **C07 (details attached under non-clobbering names)**: `assertThat` and `expectThat` keep every
+existing detail (same names, same order) and add one detail per entry of the mismatch's `get_details()`
+(`expectThat` also the "Failed expectation" one), each under a name that is neither an existing one nor
+one added before it. -/
+theorem C07_details_nonclobbering (a : AssertIn) (ds : List Nat) (hm : a.mismatch = some ds)
+    (h : a.api ≠ .assert_that) :
+    ∃ added, (assertModel a).names = a.existing ++ added ∧ freshAll a.existing added = true ∧
+      added.map (·.base) = (if a.api = .expectThat then ds ++ [0] else ds) := by
+  obtain ⟨added, h1, h2, h3⟩ := foldl_addUnique ds a.existing
+  unfold assertModel
+  cases ha : a.api with
+  | assert_that => exact absurd ha h
+  | assertThat => exact ⟨added, by simp [hm, h1], h3, by simp [h2]⟩
+  | expectThat =>
+    refine ⟨added ++ [uniq (a.existing ++ added) 0], ?_, ?_, ?_⟩
+    · simp [hm, h1, addUnique]
+    · exact freshAll_snoc added a.existing _ h3 (uniq_fresh _ 0)
+    · simp [h2, uniq, uniqFrom_base]
+
+/-- `freshAll` read as a proposition: no added name clashes with an existing one or an earlier added one -/
+theorem freshAll_iff : ∀ (added ex : List Name), freshAll ex added = true ↔
+    (∀ n ∈ added, n ∉ ex) ∧ added.Nodup
+  | [], ex => by simp [freshAll]
+  | a :: added, ex => by
+    have ih := freshAll_iff added (ex ++ [a])
+    have e : freshAll ex (a :: added) = true ↔ a ∉ ex ∧ freshAll (ex ++ [a]) added = true := by
+      simp [freshAll]
+    rw [e, ih]
+    constructor
+    · rintro ⟨h1, h2, h3⟩
+      refine ⟨?_, List.nodup_cons.mpr ⟨?_, h3⟩⟩
+      · intro n hn
+        rcases List.mem_cons.mp hn with rfl | hn
+        · exact h1
+        · exact fun hmem => h2 n hn (List.mem_append_left _ hmem)
+      · exact fun hmem => h2 a hmem (List.mem_append_right _ (List.mem_singleton.mpr rfl))
+    · rintro ⟨h1, h2⟩
+      obtain ⟨h3, h4⟩ := List.nodup_cons.mp h2
+      refine ⟨h1 a List.mem_cons_self, ?_, h4⟩
+      intro n hn hmem
+      rcases List.mem_append.mp hmem with hmem | hmem
+      · exact h1 n (List.mem_cons_of_mem _ hn) hmem
+      · rw [List.mem_singleton] at hmem
+        subst hmem
+        exact h3 hn
+
+end TTV.Props.C07
+
+/-! # headline and the recorded finding -/
+namespace TTV.Props.C07
+open TTV.Matchers hiding Input Trace model
+open TTV.Describe TTV.Spec.C07 TTV.TextRepr
+
+theorem matchImpl_stripAnnot (sel : Bool) : ∀ (m : M) (v : V), matchImpl sel m v = matchImpl sel (stripAnnot m) v
+  | .annotate m, v => by simp only [matchImpl, stripAnnot]; exact matchImpl_stripAnnot sel m v
+  | .leaf _, _ => rfl
+  | .excTypeV _ _, _ => rfl
+  | .raises _, _ => rfl
+  | .not _, _ => rfl
+  | .all _ _, _ => rfl
+  | .any _, _ => rfl
+  | .allMatch _, _ => rfl
+  | .anyMatch _, _ => rfl
+  | .listwise _ _, _ => rfl
+  | .setwise _ _ _, _ => rfl
+  | .structure _ _, _ => rfl
+  | .dict _ _ _, _ => rfl
+  | .after _ _ _, _ => rfl
+
+theorem coarse_stripAnnot : ∀ (m : M), coarse m = coarse (stripAnnot m)
+  | .annotate m => by simp only [coarse, stripAnnot]; exact coarse_stripAnnot m
+  | .leaf _ => rfl
+  | .excTypeV _ _ => rfl
+  | .raises _ => rfl
+  | .not _ => rfl
+  | .all _ _ => rfl
+  | .any _ => rfl
+  | .allMatch _ => rfl
+  | .anyMatch _ => rfl
+  | .listwise _ _ => rfl
+  | .setwise _ _ _ => rfl
+  | .structure _ _ => rfl
+  | .dict _ _ _ => rfl
+  | .after _ _ _ => rfl
+
+theorem wf_withMessage (a : Bool) (m : M) : wf (withMessage a m) = wf m := by
+  cases a <;> simp [withMessage, wf]
+
+theorem validText_iff (b : Bool) (s : List Nat) : validText b s = true ↔ ∀ c ∈ s, valid b c := by
+  unfold validText valid
+  cases b <;> simp
+
+/-- **C07 (a well-formed `MatchesPredicate` returns its Mismatch)** unless the matchee is a tuple.
+Full statement (false, finding `predicateTupleMatchee`): for every value `v` of which the predicate is
+false, `match()` returns a Mismatch. -/
+theorem C07_predicate_mismatch_built_partial (sel : Bool) (id : Nat) (dom : List V) (res : List Verdict) (v : V)
+    (hno : lookupTbl v dom res = .mismatch) (hv : ∀ e, v ≠ .exc e true) :
+    matchImpl sel (.leaf (.predicate id .one dom res)) v = .mismatch := by
+  simp only [matchImpl, leafImpl, hno]
+  have : fmtErr .one v = false := by
+    unfold fmtErr
+    split
+    · rename_i e; exact absurd rfl (hv e)
+    · cases mappingLike v <;> simp
+  simp [this]
+
+/-- the model exhibits the defect: `MatchesPredicate(lambda x: False, '%s is not ok')` on an exc_info tuple -/
+def witnessI : Input :=
+  .describe (.leaf (.predicate 1 .one [.exc ⟨.valueError, 1⟩ true] [.mismatch])) (.exc ⟨.valueError, 1⟩ true) false false
+theorem C07_predicate_tuple_witness :
+    predicateTupleMatchee witnessI = true ∧ holds witnessI (model witnessI) = false ∧
+    matchImpl true (.leaf (.predicate 1 .one [.exc ⟨.valueError, 1⟩ true] [.mismatch])) (.exc ⟨.valueError, 1⟩ true)
+      = .raised .typeError := by
+  decide
+
+/-- The executable specification holds of the model's trace for every input outside the finding class
+`predicateTupleMatchee`.  Full statement (false because of that finding): `∀ i, holds i (model i) = true`. -/
+theorem holds_model_partial (i : Input) (h : predicateTupleMatchee i = false) : holds i (model i) = true := by
+  simp only [holds, clauses, List.all_cons, List.all_nil, Bool.and_true, Bool.and_eq_true]
+  cases i with
+  | describe m v annotated verbose =>
+    have hstr := C07_str_total (withMessage annotated m)
+    refine ⟨?_, ?_, ?_, ?_, rfl, rfl, rfl, rfl⟩
+    · simp [cStrTotal, model, hstr]
+    · simp only [cDescribeTotal, model]
+      cases hw : wf m with
+      | false => simp
+      | true =>
+        have hd := C07_describe_total true (withMessage annotated m) v (by rw [wf_withMessage]; exact hw)
+        simp [hd]
+    · simp only [cErrorStrTotal, model]
+      cases hw : wf m with
+      | false => simp
+      | true =>
+        have hd := C07_describe_total true (withMessage annotated m) v (by rw [wf_withMessage]; exact hw)
+        simp [hd, hstr, seqR]
+    · simp only [cMismatchBuilt, model]
+      split
+      · rename_i hp
+        unfold predicateSaysNo at hp
+        simp only [predicateTupleMatchee] at h
+        generalize hm' : withMessage annotated m = m' at hp h ⊢
+        have hr : matchImpl true m' v = .mismatch := by
+          rw [matchImpl_stripAnnot]
+          split at hp
+          · rename_i id dom res heq
+            rw [heq] at h ⊢
+            simp only [Bool.true_and] at h
+            have hno : lookupTbl v dom res = .mismatch := by simpa using hp
+            have hv : ∀ e, v ≠ .exc e true := by
+              intro e he; subst he; simp at h
+            exact C07_predicate_mismatch_built_partial true id dom res v hno hv
+          · simp at hp
+        simp [hr, canon]
+      · rfl
+  | textRepr b ml np s =>
+    refine ⟨rfl, rfl, rfl, rfl, ?_, rfl, rfl, rfl⟩
+    simp only [cTextReprRoundTrip, model]
+    cases hvt : validText b s with
+    | false => simp
+    | true =>
+      rw [C07_text_repr_roundtrip b _ ml s ((validText_iff b s).mp hvt)]
+      simp
+  | assert a =>
+    refine ⟨rfl, rfl, rfl, rfl, rfl, ?_, ?_, ?_⟩
+    · simp only [cRaisesIff, model, assertModel]
+      cases hm : a.mismatch <;> cases ha : a.api <;> simp
+    · simp only [cFailsAfterwards, model, assertModel]
+      cases hm : a.mismatch <;> cases ha : a.api <;> simp
+    · simp only [cNonClobbering, model]
+      cases hm : a.mismatch with
+      | none => simp [assertModel, hm, freshAll]
+      | some ds =>
+        cases ha : a.api with
+        | assert_that => simp [assertModel, hm, ha, freshAll]
+        | assertThat =>
+          obtain ⟨added, h1, h2, h3⟩ := C07_details_nonclobbering a ds hm (by simp [ha])
+          simp [h1, h2, h3, ha]
+        | expectThat =>
+          obtain ⟨added, h1, h2, h3⟩ := C07_details_nonclobbering a ds hm (by simp [ha])
+          simp [h1, h2, h3, ha]
+
+/-- **C07 (`str(MismatchError)` is total)**, verbose or not, annotated or not: for every well-formed
+expression and every value, `str(matcher)`, `describe()`, `get_details()` and `str(MismatchError(...))`
+all succeed in the model. -/
+theorem C07_mismatch_error_str_total (m : M) (v : V) (annotated verbose : Bool) (hw : wf m = true) :
+    ∃ r, model (.describe m v annotated verbose) = .describe none r none none none := by
+  have hstr := C07_str_total (withMessage annotated m)
+  have hd := C07_describe_total true (withMessage annotated m) v (by rw [wf_withMessage]; exact hw)
+  refine ⟨canon (withMessage annotated m) (matchImpl true (withMessage annotated m) v), ?_⟩
+  simp [model, hstr, hd, seqR]
+
+/-! ## non-vacuity -/
+-- text_repr of  a'''\'  with multiline forced: the literal the real code prints; it evaluates back
+example : textRepr false (fun _ => true) (some true) [97, 39, 39, 39, 92, 39]
+    = [39, 39, 39, 92, 10, 97, 92, 39, 39, 39, 92, 92, 92, 39, 39, 39, 39] := by decide
+example : pyEval false (textRepr false (fun _ => true) none [39, 10, 34, 233, 0]) = some [39, 10, 34, 233, 0] := by decide
+example : valid false 0x10ffff ∧ valid true 255 := by simp [valid]
+-- a mismatch whose description needs str() of a sub-matcher, and one that is out of the documented domain
+example : matchImpl true (.not (.leaf .always)) (.int 1) = .mismatch ∧ descr true (.not (.leaf .always)) (.int 1) = none := by decide
+example : wf (.leaf (.predicate 0 .empty [] [])) = false
+    ∧ descr true (.leaf (.predicate 0 .empty [] [])) (.dict [] []) = some .notImplementedError := by decide
+-- expectThat with colliding names: "Failed expectation" exists, the detail d2 exists twice
+example : (assertModel ⟨.expectThat, [⟨0, 0⟩, ⟨2, 0⟩, ⟨2, 1⟩], some [2]⟩).names
+    = [⟨0, 0⟩, ⟨2, 0⟩, ⟨2, 1⟩, ⟨2, 2⟩, ⟨0, 1⟩] := by decide
 
 end TTV.Props.C07
